@@ -23,9 +23,10 @@ for c in "$@"; do
   echo "   check $c rc=$rc $line"
   results="$results{\"check\":\"$c\",\"rc\":$rc,\"root_causes\":\"$(echo "$line" | sed 's/"/\\"/g' | cut -c1-400)\"},"
 done
-dest="/verif/seeded/$id-${SEEDTAG:-}m$k"; mkdir -p "$dest"
+prop="${SEEDPROP:-$id}"
+dest="/verif/seeded/$prop-${SEEDTAG:-}m$k"; mkdir -p "$dest"
 cp "$src/patch.diff" "$dest/patch.diff"; cp "$demo" "$dest/demo.py"; [ -f "$src/notes.md" ] && cp "$src/notes.md" "$dest/notes.md"
-/venv/bin/python - "$dest" "$id" "$clean_rc" "$mut_rc" "$suite" "[${results%,}]" <<'PY'
+/venv/bin/python - "$dest" "$prop" "$clean_rc" "$mut_rc" "$suite" "[${results%,}]" <<'PY'
 import json, sys, subprocess
 dest, pid, crc, mrc, suite, res = sys.argv[1:7]
 head = subprocess.run(["git", "-C", "/repo", "rev-parse", "--short", "HEAD"], capture_output=True, text=True).stdout.strip()
